@@ -182,6 +182,11 @@ def _pq_case(cfg, values):
                           ('bulk count via relationship', names(orm.select(r.ref for r in M.R if isinstance(r.ref, E))), want_of(sub))]
                 for label, got, want in checks:
                     if got != want: bad.append((E.__name__, label, got, want))
+                # random picks are picks among the objects of E (and its subclasses), whatever shortcut computes them
+                for n in (1, 2):
+                    for attempt in range(12):
+                        strangers = sorted(set(o.name for o in E.select_random(n) if not isinstance(o, E)) | set(o.name for o in E.select().random(n) if not isinstance(o, E)))
+                        if strangers: bad.append((E.__name__, 'select_random(%d) / select().random(%d) returned objects of other classes' % (n, n), strangers)); break
             for E1, E2 in itertools.combinations(M.classes, 2):
                 got = names(orm.select(x for x in root if isinstance(x, (E1, E2))))
                 want = want_of(lambda c: issubclass(c, (E1, E2)))
